@@ -35,6 +35,11 @@ def main():
     if meta.get('confirmed'):
         rc, out = sh('git -C /repo apply %s' % patch)
         if rc != 0:
+            # /repo has moved on (fix: commits) since the seed was written: retry with fuzz
+            rc, out = sh('patch -p1 -F3 --no-backup-if-mismatch < %s' % patch, '/repo')
+            meta['applied_with_fuzz'] = (rc == 0)
+        if rc != 0:
+            sh('git -C /repo checkout -- .')
             meta['apply_to_repo'] = out[-300:]
         else:
             try:
